@@ -319,6 +319,9 @@ func decodeKeyByBitmapUint8(d *structDecoder, buf []byte, cursor int64) (int64, 
 					}
 					cursor = nextCursor
 				default:
+					if c < 0x20 {
+						return 0, nil, errors.ErrControlCharInString(c, cursor)
+					}
 					curBit &= bitmap[keyIdx][largeToSmallTable[c]]
 					if curBit == 0 {
 						return decodeKeyNotFound(b, cursor)
@@ -384,6 +387,9 @@ func decodeKeyByBitmapUint16(d *structDecoder, buf []byte, cursor int64) (int64,
 					}
 					cursor = nextCursor
 				default:
+					if c < 0x20 {
+						return 0, nil, errors.ErrControlCharInString(c, cursor)
+					}
 					curBit &= bitmap[keyIdx][largeToSmallTable[c]]
 					if curBit == 0 {
 						return decodeKeyNotFound(b, cursor)
@@ -426,6 +432,10 @@ func decodeKeyNotFound(b unsafe.Pointer, cursor int64) (int64, *structFieldSet, 
 			}
 		case nul:
 			return 0, nil, errors.ErrUnexpectedEndOfJSON("string", cursor)
+		default:
+			if c := char(b, cursor); c < 0x20 {
+				return 0, nil, errors.ErrControlCharInString(c, cursor)
+			}
 		}
 	}
 }
@@ -520,6 +530,10 @@ func decodeKeyByBitmapUint8Stream(d *structDecoder, s *Stream) (*structFieldSet,
 						keyIdx++
 					}
 				default:
+					if c < 0x20 {
+						s.cursor = cursor
+						return nil, "", errors.ErrControlCharInString(c, s.totalOffset())
+					}
 					curBit &= bitmap[keyIdx][largeToSmallTable[c]]
 					if curBit == 0 {
 						s.cursor = cursor
@@ -607,6 +621,10 @@ func decodeKeyByBitmapUint16Stream(d *structDecoder, s *Stream) (*structFieldSet
 						keyIdx++
 					}
 				default:
+					if c < 0x20 {
+						s.cursor = cursor
+						return nil, "", errors.ErrControlCharInString(c, s.totalOffset())
+					}
 					curBit &= bitmap[keyIdx][largeToSmallTable[c]]
 					if curBit == 0 {
 						s.cursor = cursor
@@ -740,6 +758,11 @@ func decodeKeyNotFoundStream(s *Stream, start int64) (*structFieldSet, string, e
 				return nil, "", errors.ErrUnexpectedEndOfJSON("string", s.totalOffset())
 			}
 			buf, cursor, p = s.statForRetry()
+		default:
+			if c := char(p, cursor); c < 0x20 {
+				s.cursor = cursor
+				return nil, "", errors.ErrControlCharInString(c, s.totalOffset())
+			}
 		}
 	}
 }
